@@ -16,6 +16,34 @@ fn vx_leaf_decreased(current: usize, decrease_factor: f64) -> (r: usize)
 
 // ---- types of /repo (shape-checked); ghost fields added ----
 pub struct AimdConfig { pub initial_limit: usize, pub min_limit: usize, pub max_limit: usize, pub increase_by: usize, pub decrease_factor: f64 }
+impl AimdConfig {
+    pub fn default() -> (r: Self)
+        ensures r.min_limit <= r.max_limit && r.min_limit >= 1,   // #default_bounds_are_ordered [C13]
+    //@body AimdConfig::default@Default file=aimd
+    pub fn new() -> (r: Self)
+        ensures r.min_limit <= r.max_limit && r.min_limit >= 1,   // #default_bounds_are_ordered [C13]
+    //@body AimdConfig::new file=aimd
+    pub fn with_initial_limit(self, limit: usize) -> (r: Self)
+        ensures r.initial_limit == limit,   // #sets_initial_limit [C13,C08]
+            r.min_limit == self.min_limit && r.max_limit == self.max_limit && r.increase_by == self.increase_by && r.decrease_factor == self.decrease_factor,   // #keeps_every_other_setting [C13,C08]
+    //@body AimdConfig::with_initial_limit file=aimd
+    pub fn with_min_limit(self, limit: usize) -> (r: Self)
+        ensures r.min_limit == limit,   // #sets_min_limit [C13,C08]
+            r.initial_limit == self.initial_limit && r.max_limit == self.max_limit && r.increase_by == self.increase_by && r.decrease_factor == self.decrease_factor,   // #keeps_every_other_setting [C13,C08]
+    //@body AimdConfig::with_min_limit file=aimd
+    pub fn with_max_limit(self, limit: usize) -> (r: Self)
+        ensures r.max_limit == limit,   // #sets_max_limit [C13,C08]
+            r.initial_limit == self.initial_limit && r.min_limit == self.min_limit && r.increase_by == self.increase_by && r.decrease_factor == self.decrease_factor,   // #keeps_every_other_setting [C13,C08]
+    //@body AimdConfig::with_max_limit file=aimd
+    pub fn with_increase_by(self, amount: usize) -> (r: Self)
+        ensures r.increase_by == amount,   // #sets_increase_by [C13,C08]
+            r.initial_limit == self.initial_limit && r.min_limit == self.min_limit && r.max_limit == self.max_limit && r.decrease_factor == self.decrease_factor,   // #keeps_every_other_setting [C13,C08]
+    //@body AimdConfig::with_increase_by file=aimd
+    pub fn with_decrease_factor(self, factor: f64) -> (r: Self)
+        ensures r.decrease_factor == factor,   // #sets_decrease_factor [C13,C08]
+            r.initial_limit == self.initial_limit && r.min_limit == self.min_limit && r.max_limit == self.max_limit && r.increase_by == self.increase_by,   // #keeps_every_other_setting [C13,C08]
+    //@body AimdConfig::with_decrease_factor file=aimd
+}
 struct_with_invariants!{
     pub struct AimdController {
         pub limit: AtomicUsize<_, (), _>,
@@ -88,6 +116,12 @@ struct_with_invariants!{
 pub struct Aimd { pub controller: AimdController, pub latency_threshold: Duration }
 
 impl Vegas {
+    pub fn new(initial_limit: usize, min_limit: usize, max_limit: usize, alpha: usize, beta: usize) -> (r: Self)
+        requires min_limit <= max_limit, max_limit < usize::MAX,
+        ensures r.wf(),   // #starts_within_bounds_whatever_initial_limit_is_given [C13]
+            r.min_limit == min_limit && r.max_limit == max_limit && r.alpha == alpha && r.beta == beta,   // #keeps_the_given_bounds_and_thresholds [C13]
+    //@body Vegas::new file=alg
+
     pub fn adjust_limit(&self)
         requires self.wf(),
     //@body Vegas::adjust_limit file=alg
@@ -102,6 +136,13 @@ impl Vegas {
     //@body Vegas::limit@ConcurrencyAlgorithm file=alg
 }
 impl Aimd {
+    pub fn new(config: AimdConfig, latency_threshold: Duration) -> (r: Self)
+        requires config.min_limit <= config.max_limit, config.max_limit <= 0x20_0000_0000_0000, f64_unit(config.decrease_factor),
+        ensures r.controller.wf() && r.controller.config == config && r.latency_threshold == latency_threshold,   // #starts_within_bounds_with_exactly_the_given_configuration [C13]
+    //@body Aimd::new file=alg
+    pub fn record_success(&self, latency: Duration)
+        requires self.controller.wf(),
+    //@body Aimd::record_success@ConcurrencyAlgorithm file=alg
     pub fn record_failure(&self)
         requires self.controller.wf(),
     //@body Aimd::record_failure@ConcurrencyAlgorithm file=alg
@@ -164,6 +205,11 @@ impl TokenBucketBudget {
 }
 
 impl AimdBudget {
+    pub fn new(min_budget: usize, max_budget: usize, deposit_amount: usize, withdraw_amount: usize, decrease_factor: f64) -> (r: Self)
+        requires min_budget <= max_budget, max_budget <= 0x20_0000_0000_0000, f64_unit(decrease_factor),
+        ensures r.wf(),   // #starts_full_and_within_bounds [C08]
+            r.limit_controller.config.min_limit == min_budget && r.limit_controller.config.max_limit == max_budget && r.deposit_amount == deposit_amount && r.withdraw_amount == withdraw_amount,   // #keeps_the_given_bounds_and_amounts [C08]
+    //@body AimdBudget::new
     #[verifier::exec_allows_no_decreases_clause]
     pub fn try_withdraw(&self) -> (r: bool)
         requires self.wf(),
